@@ -75,6 +75,8 @@ def run_case(spec, ctx):
     g = C.Guard()
     for i, a in enumerate(B.arrays):
         g.add(a, 'arr%d' % i, readonly=False)
+        # digest taken when the array was created, i.e. before RSOME saw it
+        g.items[-1] = (g.items[-1][0], a, B.digests[i])
     ctx.count('arrays_guarded', len(B.arrays))
     cls = C.cone_class(f1)
     feats = {'class': src['kind'], 'cone': cls, 'arr': str(src['variant']['arr']),
